@@ -289,6 +289,39 @@ pub struct Nested {
 	arr: [i16; 3],
 }
 
+/// newtype structs around sequences, tuples, options and maps (a newtype is transparent: its payload is encoded as is)
+#[derive(Serialize, Deserialize, PartialEq, Debug, Clone)]
+pub struct Ids(Vec<u8>);
+#[derive(Serialize, Deserialize, PartialEq, Debug, Clone)]
+pub struct Rows(Vec<Vec<u8>>);
+#[derive(Serialize, Deserialize, PartialEq, Debug, Clone)]
+pub struct Pair1((u8,));
+#[derive(Serialize, Deserialize, PartialEq, Debug, Clone)]
+pub struct OptN(Option<Vec<i8>>);
+#[derive(Serialize, Deserialize, PartialEq, Debug, Clone)]
+pub struct MapN(BTreeMap<i64, Ids>);
+#[derive(Serialize, Deserialize, PartialEq, Debug, Clone)]
+pub struct Newtypes {
+	ids: Ids,
+	rows: Rows,
+	p: Pair1,
+	o: OptN,
+	m: MapN,
+	arr1: [Ids; 1],
+	e: Vec<E>,
+}
+
+/// an integer of a random LENGTH (1..19 digits), either sign: digit-count boundaries of whatever buffer formats it
+fn gen_i64_by_len(rng: &mut Rng) -> i64 {
+	let digits = 1 + rng.below(19);
+	let mut m: u64 = 1 + rng.below(9) as u64;
+	for _ in 1..digits {
+		m = m.saturating_mul(10).saturating_add(rng.below(10) as u64);
+	}
+	let m = m.min(i64::MAX as u64) as i64;
+	if rng.chance(1, 2) { -m } else { m }
+}
+
 /// large data: sequences and maps past 256 elements, keys and strings past the inline capacities, a long string
 #[derive(Serialize, Deserialize, PartialEq, Debug, Clone)]
 pub struct Big {
@@ -374,6 +407,7 @@ fn gen_point(rng: &mut Rng, depth: usize) -> Point {
 
 /// everything the recorder needs about one instance of a family type
 fn typed_event<T: Serialize + DeserializeOwned + PartialEq + fmt::Debug>(tname: &str, d: &T) -> J {
+	disturb_de();
 	let term = d.serialize(Rec).unwrap_or_else(|e| tool_error(&format!("recording serializer: {e}")));
 	let value = crate::serdev::ser_outcome(guarded(|| json_syntax::to_value(d)));
 	let same = |x: &T| x == d && format!("{:?}", x) == format!("{:?}", d);
@@ -466,6 +500,15 @@ pub fn disturb_de() {
 		}
 		let nested = serde_json::json!([[[[[{"$serde_json::private::Number": true}]]]]]);
 		let _ = serde_json::from_value::<Value>(nested);
+		// typed deserializations FROM a Value that fail deep inside arrays and objects
+		let (deep_seq, _) = Value::parse_str("[[[[[[[[[[\"x\"]]]]]]]]]]").unwrap();
+		let (deep_map, _) = Value::parse_str("{\"a\":{\"a\":{\"a\":{\"a\":{\"a\":[[[true]]]}}}}}").unwrap();
+		type V10 = Vec<Vec<Vec<Vec<Vec<Vec<Vec<Vec<Vec<Vec<u8>>>>>>>>>>;
+		type M5 = BTreeMap<String, BTreeMap<String, BTreeMap<String, BTreeMap<String, BTreeMap<String, Vec<Vec<Vec<u8>>>>>>>>;
+		for _ in 0..30 {
+			let _ = json_syntax::from_value::<V10>(deep_seq.clone());
+			let _ = json_syntax::from_value::<M5>(deep_map.clone());
+		}
 	});
 }
 
@@ -565,6 +608,8 @@ pub fn record(args: &Args) {
 					for _ in 0..rng.below(3) {
 						m.s.insert(gen_string(&mut rng), rng.next() as i32);
 						m.i.insert(edge!(rng, [i64::MIN, i64::MAX, -1, 0], rng.next() as i64), rng.chance(1, 2));
+						m.i.insert(gen_i64_by_len(&mut rng), rng.chance(1, 2));
+						m.u.insert(gen_i64_by_len(&mut rng).unsigned_abs(), rng.below(256) as u8);
 						m.u.insert(edge!(rng, [u64::MAX, 0, 1 << 63, i64::MAX as u64 + 1], rng.next()), rng.below(256) as u8);
 						m.i8s.insert(edge!(rng, [i8::MIN, i8::MAX], rng.range(-128, 127) as i8), ());
 						m.c.insert(gen_char(&mut rng), gen_string(&mut rng));
@@ -585,6 +630,19 @@ pub fn record(args: &Args) {
 				}
 			};
 			lines.push(ev);
+		}
+		if want("typed") && i % 9 == 3 {
+			let ids = |rng: &mut Rng| Ids((0..rng.below(3)).map(|_| rng.below(256) as u8).collect());
+			let nt = Newtypes {
+				ids: ids(&mut rng),
+				rows: Rows((0..rng.below(3)).map(|_| (0..rng.below(2)).map(|_| rng.below(256) as u8).collect()).collect()),
+				p: Pair1((rng.below(256) as u8,)),
+				o: OptN(rng.pick(&[None, Some(vec![]), Some(vec![-1i8]), Some(vec![1, 2])]).clone()),
+				m: MapN((0..rng.below(3)).map(|_| (gen_i64_by_len(&mut rng), ids(&mut rng))).collect()),
+				arr1: [ids(&mut rng)],
+				e: (0..rng.below(2)).map(|_| gen_e(&mut rng, 1)).collect(),
+			};
+			lines.push(typed_event("Newtypes", &nt));
 		}
 		if want("typed") && i == 1 {
 			let big = Big {
@@ -681,7 +739,11 @@ pub fn record(args: &Args) {
 		if want("js_rt") {
 			// the stated domain: no duplicate keys, numbers are 64-bit integers or finite doubles;
 			// plus (no-panic clause) any magnitude
-			let v = if i % 5 == 4 { Value::Array(vec![num(*rng.pick(&["1e400", "-1e999", "1e-400", "123456789012345678901234567890", "0.1e-999"]))]) } else { gen_value(&mut rng, 1 + i % 3, false, 0) };
+			let v = if i == 2 {
+				// finite doubles spelled with more than a thousand digits after the point (every digit may decide the rounding)
+				Value::Array(vec![num(&format!("0.{}1e1101", "0".repeat(1100))), num(&format!("9007199254740993.{}1", "0".repeat(1100))), num(&format!("-1.{}9", "9".repeat(1150))),
+					num(&crate::numgen::plain(&crate::numgen::midpoint_above(1, -1074)))])
+			} else if i % 5 == 4 { Value::Array(vec![num(*rng.pick(&["1e400", "-1e999", "1e-400", "123456789012345678901234567890", "0.1e-999"]))]) } else { gen_value(&mut rng, 1 + i % 3, false, 0) };
 			let mut sps = vec![];
 			numbers_of(&v, &mut sps);
 			let in_domain = sps.iter().all(|s| cert64(s).is_some());
